@@ -59,6 +59,30 @@ fn main() {
     }
     sink.merge(struct_sweep(&run, &targets, &magic_recs, 0, &sfx, 48, &extra));
     // the cross product of the hello fields (version x magic random x session id x cipher kind x compression x extension block)
+    // every prefix length (dense to 700 [2200], around 2^14 and the cap, sparse between) of long message streams
+    // as the payload of a record: whole messages followed by a cut / undecodable tail at every record size
+    {
+        let streams = cat::message_streams();
+        let cuts = cat::stream_cuts(thorough);
+        let items: Vec<(usize, usize)> = (0..streams.len()).flat_map(|s| (0..cuts.len()).map(move |c| (s, c))).collect();
+        let ss = par_run(run.threads, items.len().div_ceil(64), |chunk, sink| {
+            for &(si, ci) in items.iter().skip(chunk * 64).take(64) {
+                let (ty, ref s) = streams[si];
+                let n = cuts[ci];
+                let mut b = vec![ty, 0x03, 0x03, (n >> 8) as u8, n as u8];
+                b.extend_from_slice(&s[..n]);
+                b.extend([0x16, 0x03]);
+                for t in &targets {
+                    for e in [b.len() - 2, b.len()] {
+                        let (g, r) = check_case(run.prop, t, &b[..e], sink);
+                        extra(t, &b[..e], &g, &r, sink);
+                    }
+                }
+                sink.bump("stream prefixes", 1);
+            }
+        });
+        sink.merge(ss);
+    }
     sink.merge(struct_sweep(&run, &targets, &wrapped(&cat::tls_records(2, false), 2), 0, &sfx, 16, &extra));
     for server in [true, false] {
         sink.merge(grid_sweep(&run, &targets, 64, &|c, n| cat::hello_grid(server, false, thorough, c, n), &|m| cat::record(0x16, 0x0303, |w| { w.append(m); }), &extra));
